@@ -59,7 +59,8 @@ func SpecUeOf(supi string) *ChfUe { return nil }
 //@   assert "context.AddChfUeToUePool(": [C09] verif_held(&context.Mutex)
 //@   ensures (result1 == nil) == (result0 != nil)
 //@   ensures result1 == nil ==> old(GhostKnown[supi]) || strings.HasPrefix(supi, "imsi-")
-//@   ensures assumed result1 == nil ==> SpecUeOK(result0) && result0 == SpecUeOf(supi) && GhostKnown[supi]
+//@   ensures result1 == nil ==> SpecUeOK(result0)
+//@   ensures assumed result1 == nil ==> result0 == SpecUeOf(supi) && GhostKnown[supi]
 //@   ensures assumed result1 != nil ==> GhostKnown[supi] == old(GhostKnown[supi])
 //@   ensures assumed forall k string :: k != supi ==> GhostKnown[k] == old(GhostKnown[k])
 //@   modifies mapof(GhostKnown)
